@@ -71,14 +71,106 @@ func (fc *FnCtx) getComp(comp, sort string) string {
 	if t, ok := st.heap[comp]; ok {
 		return t
 	}
-	st.sorts[comp] = sort
-	n := baseName(comp, st.epoch)
-	fc.vc.declare(n, sort)
-	if comp == "alloc" && st.epoch == 0 {
-		fc.vc.assert("(>= " + n + " 0)")
-	}
+	n := fc.baseConst(st, comp, sort)
 	st.heap[comp] = n
 	return n
+}
+
+// baseConst declares (once) the constant standing for a component nobody has written since the last havoc-all,
+// together with its typing closure: every cell of an allocated object holds a well-typed value.
+func (fc *FnCtx) baseConst(st *State, comp, sort string) string {
+	st.sorts[comp] = sort
+	n := baseName(comp, st.epoch)
+	if fc.vc.declSet[n] {
+		return n
+	}
+	fc.vc.declare(n, sort)
+	if comp == "alloc" {
+		if st.epoch == 0 {
+			fc.vc.assert("(>= " + n + " 0)")
+		}
+		return n
+	}
+	if st.epoch == 0 {
+		a := baseName("alloc", 0)
+		fc.vc.declare(a, "Int")
+		fc.vc.assert(fc.closure(n, comp, a))
+	}
+	return n
+}
+
+// closure: forall allocated r: the content of comp at r is well typed with respect to the frontier.
+func (fc *FnCtx) closure(term, comp, frontier string) string {
+	vc := fc.vc
+	et := compElemType(vc, comp)
+	if et == nil {
+		return "true"
+	}
+	vc.nfresh++
+	r := fmt.Sprintf("q!cl!%d", vc.nfresh)
+	switch {
+	case strings.HasPrefix(comp, "F."), strings.HasPrefix(comp, "B."):
+		wt := fc.wellTyped("(select "+term+" "+r+")", et, frontier, 1)
+		if wt == "true" {
+			return "true"
+		}
+		return "(forall ((" + r + " Int)) (! (=> (and (<= 0 " + r + ") (<= " + r + " " + frontier + ")) " + wt + ") :pattern ((select " + term + " " + r + "))))"
+	case strings.HasPrefix(comp, "E."), strings.HasPrefix(comp, "CL."):
+		i := r + "i"
+		wt := fc.wellTyped("(select (select "+term+" "+r+") "+i+")", et, frontier, 1)
+		if wt == "true" {
+			return "true"
+		}
+		return "(forall ((" + r + " Int) (" + i + " Int)) (! (=> (and (<= 0 " + r + ") (<= " + r + " " + frontier + ")) " + wt + ") :pattern ((select (select " + term + " " + r + ") " + i + "))))"
+	case strings.HasPrefix(comp, "MV."):
+		mt, ok := typeByKey(comp[3:]).Underlying().(*types.Map)
+		if !ok {
+			return "true"
+		}
+		i := r + "k"
+		wt := fc.wellTyped("(select (select "+term+" "+r+") "+i+")", mt.Elem(), frontier, 1)
+		if wt == "true" {
+			return "true"
+		}
+		return "(forall ((" + r + " Int) (" + i + " " + fc.sortStr(mt.Key()) + ")) (! (=> (and (<= 0 " + r + ") (<= " + r + " " + frontier + ")) " + wt + ") :pattern ((select (select " + term + " " + r + ") " + i + "))))"
+	case strings.HasPrefix(comp, "ML."):
+		return "(forall ((" + r + " Int)) (! (>= (select " + term + " " + r + ") 0) :pattern ((select " + term + " " + r + "))))"
+	case comp == "CN.sent" || comp == "CN.recvd" || comp == "CN.cap":
+		return "(forall ((" + r + " Int)) (! (>= (select " + term + " " + r + ") 0) :pattern ((select " + term + " " + r + "))))"
+	}
+	return "true"
+}
+
+// compElemType recovers the Go type stored in the cells of a component from its name.
+func compElemType(vc *VC, comp string) types.Type {
+	switch {
+	case strings.HasPrefix(comp, "F."):
+		rest := comp[2:]
+		i := strings.LastIndex(rest, ".")
+		if i < 0 {
+			return nil
+		}
+		st := typeByKey(rest[:i])
+		if st == nil {
+			return nil
+		}
+		if _, ok := st.Underlying().(*types.Struct); !ok {
+			return nil
+		}
+		for _, f := range vc.fieldsOf(st) {
+			if smtIdent(f.name) == rest[i+1:] {
+				return f.typ // nil for ghost fields
+			}
+		}
+		return nil
+	case strings.HasPrefix(comp, "B."):
+		return typeByKey(comp[2:])
+	case strings.HasPrefix(comp, "E."):
+		return typeByKey(comp[2:])
+	case strings.HasPrefix(comp, "CL."):
+		return typeByKey(comp[3:])
+	}
+	return nil
 }
 
 // compAt returns the version of a component in a given state (used for old()).
@@ -86,9 +178,15 @@ func (fc *FnCtx) compAt(st *State, comp, sort string) string {
 	if t, ok := st.heap[comp]; ok {
 		return t
 	}
-	st.sorts[comp] = sort
-	n := baseName(comp, st.epoch)
-	fc.vc.declare(n, sort)
+	return fc.baseConst(st, comp, sort)
+}
+
+// havocComp replaces a component by a fresh version that is well typed with respect to the given frontier.
+func (fc *FnCtx) havocComp(comp, sort, frontier string) string {
+	n := fc.vc.fresh("H."+comp, sort)
+	fc.cur.sorts[comp] = sort
+	fc.cur.heap[comp] = n
+	fc.vc.assume(fc.cur.reach, fc.closure(n, comp, frontier))
 	return n
 }
 
